@@ -311,6 +311,7 @@ def generate(unit_dir, mustfail=False, mutate=None, variant=None, template='unit
                     if sep not in joined:
                         raise ExtractError('%s: rewrite needs `<from> => <to>`' % tpath)
                     frm, to = joined.split(sep, 1)
+                    to = to.replace('\\n', '\n')      # `\n` in the replacement text: a line break (so that a spliced clause can carry a label comment)
                     spec.setdefault('rewrites', []).append((frm, to))
                     spec['rules'].add('R11')
                 elif k == 'macro':
